@@ -6,7 +6,9 @@ import (
 	"go/token"
 	"go/types"
 	"math/big"
+	"os"
 	"strings"
+	"time"
 
 	"golang.org/x/tools/go/ssa"
 )
@@ -98,6 +100,48 @@ func (e *Engine) RunRoot(fn *ssa.Function) (err error) {
 			s.addCover("cover", e.rootKey+"#cover:requires", fn.Pos(), "requires satisfiable")
 		}
 	}
+	// static frame clauses: never_writes [tag] T.f, T.g ... (checked on the transitive write set of the function)
+	if fr.contract != nil && fr.contract.Flags["never_writes"] != "" {
+		spec := fr.contract.Flags["never_writes"]
+		tag := ""
+		if strings.HasPrefix(spec, "[") {
+			if k := strings.Index(spec, "]"); k > 0 {
+				tag = spec[1:k]
+				spec = strings.TrimSpace(spec[k+1:])
+			}
+		}
+		ws := newWriteSet()
+		e.funcWrites(fn, ws, nil)
+		forbidden := newWriteSet()
+		env := e.mkEnv(s, fr, nil, nil)
+		for _, item := range strings.Split(spec, ",") {
+			e.resolveAssign(s, env, strings.TrimSpace(item), forbidden)
+		}
+		ok := !ws.All
+		why := ""
+		if ws.All {
+			why = "write set is unbounded: " + ws.Why
+		}
+		for k := range forbidden.Heap {
+			if ws.Heap[k] {
+				ok = false
+				why = "may write " + k
+			}
+		}
+		goal := TTrue
+		if !ok {
+			goal = TFalse
+		}
+		name := fmt.Sprintf("%s#frame:%s", e.rootKey, tag)
+		s.addObligation("frame", name, tag, fn.Pos(), goal, "never writes "+spec+" "+why)
+		if !ok {
+			// a definite answer of the static analysis: record it as refuted
+			e.obligations[len(e.obligations)-1].Result = &SolverResult{Status: "sat", Solver: "static-frame-analysis", Output: why}
+		}
+		if fr.contract.Flags["frame_only"] != "" {
+			return nil
+		}
+	}
 	e.rootHint = nil
 	if fr.contract != nil && fr.contract.Flags["replay_hint"] != "" {
 		if hx, err := ParseExpr(fr.contract.Flags["replay_hint"]); err == nil {
@@ -125,12 +169,22 @@ func (s *State) addCover(kind, name string, pos token.Pos, desc string) {
 }
 
 func (e *Engine) runStates(work []*State) error {
+	started := time.Now()
+	budget := 120 * time.Second
+	if v := os.Getenv("GOVC_ROOT_BUDGET"); v != "" {
+		if d, err := time.ParseDuration(v); err == nil {
+			budget = d
+		}
+	}
 	for len(work) > 0 {
 		s := work[len(work)-1]
 		work = work[:len(work)-1]
 		e.statesRun++
 		if e.statesRun > e.maxStates {
 			return fmt.Errorf("path explosion (> %d states) in %s", e.maxStates, e.rootKey)
+		}
+		if time.Since(started) > budget {
+			return fmt.Errorf("exploration budget (%s) exceeded in %s after %d states: split the function with contracts", budget, e.rootKey, e.statesRun)
 		}
 		succ := e.runUntilBranch(s)
 		work = append(work, succ...)
